@@ -24,13 +24,14 @@ KIND_WHAT = {
     "disagreement": "endpoints completed with different session parameters / exporter output / broken data path",
     "resumption": "second connection's resumption status differs from (tickets enabled on both sides)",
     "resumed-without-session": "first connection reports a resumption",
+    "resumed-disabled-suite": "after the server was reconfigured (same ticket keys) the connection was resumed on a suite that is not in (client's offer and server's current list)",
     "panic-or-hang": "endpoint panicked or did not return",
     "server-completed-without-client-certificate": "server requiring a client certificate completed with a client that has none",
 }
 
 
 def sig_of(facts):
-    return {k: facts[k] for k in ("kind", "vers", "down", "auth", "ccert", "resumed", "server_restricts_tls13",
+    return {k: facts[k] for k in ("kind", "vers", "down", "auth", "ccert", "resumed", "reconf", "server_restricts_tls13",
                                   "suite_in_server_list", "suite_in_client_offer") if k in facts}
 
 
@@ -38,10 +39,14 @@ def to_cands(records, rejects):
     cands = []
     for idx, facts in rejects:
         rec = records[idx]
-        case = {"id": rec["id"], "c": rec["c"], "s": rec["s"], "down": rec["down"], "two": rec["second"], "ccert": rec["ccert"]}
-        what = "%s (negotiated per spec: version %s; observed client %s/%s server %s/%s, second=%s; errors c=%r s=%r)" % (
+        case = {"id": rec["id"], "c": rec["c"], "s": rec["s1"], "down": rec["down"], "two": rec["second"], "ccert": rec["ccert"],
+                "reconf": rec["reconf"], "s2": rec["s"]}
+        what = "%s (negotiated per spec: version %s; observed client %s/%s server %s/%s, second=%s%s; errors c=%r s=%r)" % (
             KIND_WHAT.get(facts["kind"], facts["kind"]), facts.get("vers"), rec["obs"]["cvers"], rec["obs"]["csuite"],
-            rec["obs"]["svers"], rec["obs"]["ssuite"], rec["second"], rec["obs"]["cerr"][:80], rec["obs"]["serr"][:80])
+            rec["obs"]["svers"], rec["obs"]["ssuite"], rec["second"],
+            ", server reconfigured: suites %s -> %s, versions %s-%s -> %s-%s" % (
+                rec["s1"]["suites"], rec["s"]["suites"], rec["s1"]["min"], rec["s1"]["max"], rec["s"]["min"], rec["s"]["max"]) if rec["reconf"] else "",
+            rec["obs"]["cerr"][:80], rec["obs"]["serr"][:80])
         cands.append({"sig": sig_of(facts), "what": what, "case": case})
     return cands
 
@@ -136,6 +141,20 @@ def run(ctx):
                                            and r["obs"]["cread"] == 1 and not r["obs"]["cdone"]),
         "alpn_negotiated": sum(1 for r in done if r["obs"]["calpn"]),
     }
+    first = {r["id"]: r for r in allrecs if not r["second"]}
+    rc = [r for r in done if r["reconf"]]
+    cov["server_reconfigured"] = {
+        "connections": sum(1 for r in allrecs if r["reconf"]),
+        "resumed": sum(1 for r in rc if r["obs"]["cres"]),
+        "full_after_suite_left_server_list": sum(
+            1 for r in rc if not r["obs"]["cres"] and r["id"] in first and first[r["id"]]["obs"]["cdone"] and r["s"]["suites"]
+            and first[r["id"]]["obs"]["cvers"] == r["obs"]["cvers"] <= 12 and first[r["id"]]["obs"]["csuite"] not in r["s"]["suites"]),
+        "full_after_version_change": sum(1 for r in rc if not r["obs"]["cres"] and r["id"] in first and first[r["id"]]["obs"]["cdone"]
+                                         and first[r["id"]]["obs"]["cvers"] != r["obs"]["cvers"]),
+    }
+    for k, v in cov["server_reconfigured"].items():
+        if not v:
+            raise Machinery("vacuous coverage of server reconfiguration: %s" % cov["server_reconfigured"])
     for k in ("completed", "resumed", "sentinel_12", "sentinel_11", "client_aborts_at_serverhello", "alpn_negotiated"):
         if not cov[k]:
             raise Machinery("vacuous coverage: no observation with %s" % k)
